@@ -286,6 +286,8 @@ type ctlRun struct {
 	router *Router
 	state  string
 	rid    int
+	// realtime: not inside a synctest bubble (engine snapshot)
+	realtime bool
 }
 
 func runControl(t *testing.T, fx *fixtures, c verifCase, w *bufio.Writer) {
@@ -445,7 +447,9 @@ func (r *ctlRun) op(line string) string {
 			}
 			return nil
 		})
-		synctest.Wait()
+		if !r.realtime {
+			synctest.Wait()
+		}
 		return "res " + res
 	case "list":
 		rows := []string{}
